@@ -44,6 +44,7 @@ type FuncContract struct {
 	Mode     Mode
 	Pure     bool
 	Safety   bool
+	SafetyKinds map[string]bool // nil: all kinds
 	Trusted  bool // extern / assumed: body not verified
 	NoBody   bool
 	Props    []string
@@ -124,6 +125,18 @@ type ContractDB struct {
 	IfaceMethods map[string]*FuncContract // "Stream.Write"
 	Immutable []*ImmutableDecl
 	NonNil    map[string]bool // package-level variables initialised once to a non-nil value
+	ValInvs   []*ValInv
+}
+
+// ValInv: invariant of every value of a named type (or pointer to it) that crosses a boundary:
+// asserted when such a value is sent, stored into shared memory or passed on; assumed when one is
+// received, loaded or taken as a parameter.
+type ValInv struct {
+	PkgPath  string
+	TypeName string
+	Ptr      bool
+	Clause   *Clause
+	Props    []string
 }
 
 type ImmutableDecl struct {
@@ -314,6 +327,19 @@ func (db *ContractDB) loadContractFile(path string, pkgPath string, src []byte) 
 				return fmt.Errorf("%s:%d: %v", path, rl.line, err)
 			}
 			db.Preds[name] = &Pred{Name: name, Params: params, Body: body, Also: also, Text: rest, PkgPath: pkgPath}
+		case "valinv":
+			// valinv [props] T expr   |  valinv [props] *T expr   (the value is called v)
+			props, r2 := splitProps(rest)
+			f := strings.SplitN(r2, " ", 2)
+			if len(f) != 2 {
+				return fmt.Errorf("%s:%d: bad valinv", path, rl.line)
+			}
+			c, err := mkClause(f[1], rl.line)
+			if err != nil {
+				return err
+			}
+			vi := &ValInv{PkgPath: pkgPath, TypeName: strings.TrimPrefix(f[0], "*"), Ptr: strings.HasPrefix(f[0], "*"), Clause: c, Props: props}
+			db.ValInvs = append(db.ValInvs, vi)
 		case "nonnil":
 			for _, f := range strings.Fields(strings.ReplaceAll(rest, ",", " ")) {
 				db.NonNil[pkgPath+"."+f] = true
@@ -373,6 +399,12 @@ func (db *ContractDB) loadContractFile(path string, pkgPath string, src []byte) 
 			curF.PerReturn = true
 		case "safety":
 			curF.Safety = true
+			if rest != "" {
+				curF.SafetyKinds = map[string]bool{}
+				for _, k := range strings.Fields(strings.ReplaceAll(rest, ",", " ")) {
+					curF.SafetyKinds[k] = true
+				}
+			}
 		case "trusted-assumption":
 			db.Trusted = append(db.Trusted, fmt.Sprintf("assumption in %s: %s (%s:%d)", curF.Key, rest, filepath.Base(path), rl.line))
 		case "trusted":
